@@ -21,15 +21,11 @@ theorem smax_eq_max (a b : α) : smax a b = max a b := by
 theorem flatteningOf_eq_sum (cs : List Nat) (avg : α) :
     flatteningOf cs avg = (cs.map fun (c : Nat) => max (((c : ℤ) : α) - avg) 0).sum := by
   unfold flatteningOf
-  suffices h : ∀ acc : α, cs.foldl (fun acc c => acc + smax (ofInt (Int.ofNat c) - avg) (ofInt 0)) acc =
-      acc + (cs.map fun (c : Nat) => max (((c : ℤ) : α) - avg) 0).sum by simpa using h 0
-  induction cs with
-  | nil => intro acc; simp
-  | cons c cs ih =>
-    intro acc
-    rw [List.foldl_cons, ih]
-    simp only [List.map_cons, List.sum_cons, smax_eq_max, ofInt_eq, Int.cast_zero, Int.ofNat_eq_natCast]
-    ring
+  show (cs.map fun c => smax (ofInt (Int.ofNat c) - avg) (ofInt 0)).sum = _
+  congr 1
+  apply List.map_congr_left
+  intro c _
+  simp only [smax_eq_max, ofInt_eq, Int.cast_zero, Int.ofNat_eq_natCast]
 
 theorem flatteningOf_nonneg (cs : List Nat) (avg : α) : 0 ≤ flatteningOf cs avg := by
   rw [flatteningOf_eq_sum]
